@@ -84,6 +84,10 @@ func runC03(env *Env, rc *RunCtx) {
 		ks = samplePositions(rc.CaseTape, N, lim)
 		rc.Count("cases_sampled_positions", 1)
 	}
+	if rc.Mode == "sql" {
+		runC03SQL(env, rc, c, mkReq, base, sigma, D)
+		return
+	}
 	for _, k := range ks {
 		for ki, kind := range c03Kinds {
 			e := 1 + (k-1)*len(c03Kinds) + ki
@@ -170,4 +174,99 @@ func firstWord(s string) string {
 		}
 	}
 	return s
+}
+
+// mode sql: the fault is injected below pop / popx / sqlcon / keto's persister,
+// at the k-th SQL statement of the check (every k when the check issues few
+// statements), kinds io / busy / badconn / ctx. A legally masked fault
+// (database/sql retries on bad connections outside a transaction, pop retries
+// "database is locked" after a sleep on the simulated clock) yields the
+// fault-free result and passes.
+func runC03SQL(env *Env, rc *RunCtx, c *Case, mkReq func() []*Request, base *ExecResult, sigma []uint32, D bool) {
+	p0 := NoFaults()
+	p0.CountSQL = true
+	cnt := env.Exec(ReplayTape(sigma), mkReq(), p0)
+	M := cnt.L2Statements
+	rc.Count("sql_statements", M)
+	if M == 0 {
+		return
+	}
+	lim := 12
+	if rc.Tier == "thorough" {
+		lim = 40
+	}
+	var ks []int
+	if M <= lim {
+		for k := 1; k <= M; k++ {
+			ks = append(ks, k)
+		}
+	} else {
+		ks = samplePositions(rc.CaseTape, M, lim)
+	}
+	kinds := []L2Fault{L2IO, L2Busy, L2BadConn, L2Ctx}
+	for _, k := range ks {
+		for ki, kind := range kinds {
+			e := 5000 + (k-1)*len(kinds) + ki
+			if rc.SkipExec(e) {
+				continue
+			}
+			var et *Tape
+			if rc.Replay && e == rc.OnlyExec && rc.ReplayExec != nil {
+				et = ReplayTape(rc.ReplayExec)
+			} else {
+				et = ReplayThen(sigma, Mix(rc.execSeed, uint64(e)))
+			}
+			plan := NoFaults()
+			plan.L2At, plan.L2Kind = k, kind
+			r := env.Exec(et, mkReq(), plan)
+			rc.Rec.Execs++
+			rc.AddSchedule(r.TraceHash)
+			rc.Count("fault_sql_"+kind.String(), r.L2Fired)
+			rc.Rec.SimTimeNs += int64(r.FakeElapsed)
+			rc.Note(fmt.Sprintf("sql k=%d kind=%s outs=%v ret=%v", k, kind, r.Outs, r.Returned))
+			w := func() map[string]any {
+				d := c.Describe()
+				d["fault"] = map[string]any{"sql_statement": k, "of": M, "kind": kind.String()}
+				d["fault_free"] = map[string]any{"allowed": D, "schedule": base.Trace}
+				d["schedule"] = r.Trace
+				d["results"] = r.Outs
+				return d
+			}
+			site := "sql/" + kind.String()
+			if !r.Returned && r.Outcome == DriveStepLimit {
+				rc.Count("inconclusive_step_limit", 1)
+				continue
+			}
+			if !r.Returned {
+				rc.Violate("no-result", site, fmt.Sprintf("check did not return after a %s fault at SQL statement %d/%d", kind, k, M), w(), e, et)
+				continue
+			}
+			if r.BatchErr != "" {
+				continue
+			}
+			for i, o := range r.Outs {
+				if o.Err != "" && o.Allowed() {
+					rc.Violate("error-with-allowed", site, fmt.Sprintf("result %d carries error %q and says allowed", i, o.Err), w(), e, et)
+					break
+				}
+				if o.Err != "" {
+					rc.Count("outcome_error", 1)
+					continue
+				}
+				if o.Allowed() == D {
+					rc.Count("outcome_same", 1)
+					if r.L2Fired > 0 {
+						rc.Count("faults_masked", 1)
+					}
+					continue
+				}
+				if o.Allowed() {
+					rc.Violate("fail-open-on-fault", site, fmt.Sprintf("fault-free: denied; with a %s fault at SQL statement %d/%d: allowed, no error", kind, k, M), w(), e, et)
+				} else {
+					rc.Violate("swallowed-error", site, fmt.Sprintf("fault-free: allowed; with a %s fault at SQL statement %d/%d: denied, no error", kind, k, M), w(), e, et)
+				}
+				break
+			}
+		}
+	}
 }
